@@ -8,8 +8,10 @@ of `draw_polygon` with width 1.  Core Lean only.
 Points are `(y, x)`.  `i32`/`u32` arithmetic is modelled over `Int` (no overflow).  The order of
 `active_edges` (a stable sort by `(x, x_step, extra_x_step)`) is kept although the yielded pixels
 only depend on how many active edges have `x ≤ cursor.x`.  `edges` is sorted by descending
-`start_y` and popped from the back in the code; here `pending` is the same list reversed
-(ascending `start_y`) and taken from the front.
+`start_y` (stable) and popped from the back in the code; here `pending` is sorted by ascending
+`start_y` and taken from the front.  Among edges with equal `start_y` the code therefore activates
+them in reverse input order and the model in input order; this is unobservable, because only the
+*number* of active edges with `x ≤ cursor.x` is used.
 -/
 namespace RtenVerif.Contours
 
